@@ -294,6 +294,8 @@ func (m *Machine) pushAlt(d int64) {
 }
 
 // branch decides a symbolic condition, forking the exploration when both sides are feasible.
+var branchTrace = os.Getenv("HCSYM_BRANCHES") != ""
+
 func (m *Machine) branch(c *Term, why string) bool {
 	if c.IsConst() {
 		return c.Val == 1
@@ -326,6 +328,9 @@ func (m *Machine) branch(c *Term, why string) bool {
 		panic(fmt.Sprintf("bad branch decision %d (%s)", d, why))
 	}
 	m.ex.addTransitions(1)
+	if branchTrace {
+		fmt.Fprintf(os.Stderr, "BRANCH %s @ %s\n", why, m.where())
+	}
 	vT := m.check(c)
 	if vT == Unsat {
 		m.record(2)
@@ -531,6 +536,19 @@ func (m *Machine) model(extra ...*Term) (map[string]uint64, bool) {
 		ls = m.solver
 	}
 	vals, err := ls.Values(vars)
+	if err == nil && len(vals) > 0 {
+		return vals, true
+	}
+	// the incremental solver has no model (the verdict came from a fall-back back end): ask
+	// the fall-back back ends for one
+	if m.ex != nil {
+		lits := append(append([]*Term{}, m.pc...), extra...)
+		for _, k := range m.ex.Fallbacks {
+			if v, mv := OneShotModel(k, m.lim.QueryTimeout, lits, vars); v == Sat && mv != nil {
+				return mv, true
+			}
+		}
+	}
 	if err != nil {
 		return nil, false
 	}
